@@ -165,6 +165,12 @@ def check_rollback(ctx, cfg, seed):
         return ctx.fail(f'roll-back run failed: {f}', case, 'neox-rollback-run-failed')
     W_ = cfg.world
     for i, op in enumerate(cfg.ops):
+        if op in ('b', 'B'):
+            for r in range(W_):
+                for name, ok in rr.res[r]['ops'][i].get('held_vs_kept', []):
+                    if not ok:
+                        return ctx.fail(f'rank {r}: after loading the kept checkpoint (op {i}, the {cfg.ops[:i + 1].count("b") + cfg.ops[:i + 1].count("B")}. load '
+                                        f'of it) factor worker of layer {name} does not hold the factors that were saved', case, 'neox-reload')
         if op != 'v':
             continue
         last_s = max(j for j, o in enumerate(cfg.ops[:i]) if o == 's')
@@ -227,7 +233,11 @@ def run(ctx):
                 break
         a, b = rng.randrange(1, 3), rng.randrange(1, 3)
         cfg.fus = 1
-        cfg.ops = ['f1', 's'] * a + ['k'] + ['f1', 's'] * b + ['v', 'b'] + ['f1', 's'] * b + ['v']
+        if i % 2 == 0:
+            cfg.ops = ['f1', 's'] * a + ['k'] + ['f1', 's'] * b + ['v', 'b'] + ['f1', 's'] * b + ['v']
+        else:
+            # the same checkpoint object used for two roll-backs with training in between
+            cfg.ops = ['f1', 's'] * a + ['k'] + ['f1', 's'] * b + ['B'] + ['f1', 's'] * b + ['B'] + ['f1', 's', 'v']
         check_rollback(ctx, cfg, ctx.seed * 419 + i)
 
 
